@@ -145,6 +145,8 @@ class CallMixin:
         mod = fv.module
         impls = {}
         for c in self.subclasses(static):
+            if self.reg.classes[c].abstract:
+                continue
             ic, fn = frontend.find_method(mod, c, mname)
             if fn is not None:
                 impls.setdefault(ic, []).append(c)
@@ -271,12 +273,13 @@ class CallMixin:
         f.result = result
         return f
 
-    def contract_env(self, st, c, env):
+    def contract_env(self, st, c, env, ctypes=None):
         """Coerce bound arguments to the kinds the contract declares."""
         out = {}
+        ctypes = ctypes or c.types
         for k, v in env.items():
-            if k in c.types:
-                kind = self.reg.kind(c.types[k])
+            if k in ctypes:
+                kind = self.reg.kind(ctypes[k])
                 if isinstance(v, SVal) and isinstance(v.kind, KOpt) and not isinstance(kind, KOpt):
                     # passing an optional where a value is expected: must not be None here
                     self.oblige(st, '%s#call[%s].arg[%s].not_none' % (self.current_qual, c.qual.split(':')[-1], k),
@@ -295,7 +298,19 @@ class CallMixin:
         n = fr.call_counter[0]
         fr.call_counter[0] += 1
         short = c.qual.split(':')[-1]
-        env = self.contract_env(st, c, env)
+        for g in c.ghost:
+            if g not in env:
+                if g in st.env:
+                    env[g] = st.env[g]
+                elif g in fr.closure:
+                    env[g] = fr.closure[g]
+                elif g in fr.bound:
+                    env[g] = fr.bound[g]
+                else:
+                    raise CheckerError('ghost argument %s of %s not available at call site in %s' % (g, c.qual, fr.qual))
+        ctypes = dict(c.types)
+        ctypes.update(c.ghost)
+        env = self.contract_env(st, c, env, ctypes)
         pre_heap = dict(st.heap)
         sf = self.spec_frame(fv.module, c.qual, fv.cls, env, old=(pre_heap, env))
         saved = st.env
